@@ -9,6 +9,7 @@ import (
 	"os"
 	"path/filepath"
 	"reflect"
+	"runtime"
 	"strings"
 	"time"
 	"unicode/utf16"
@@ -327,8 +328,29 @@ func engineTotality(ctx *Ctx) {
 			}
 		}
 	})
+	t0 := time.Now()
+	c10DictQueries(ctx, r, budget)
+	c18AddExtra(ctx, "cpu_seconds_dictionary_queries", time.Since(t0).Seconds())
+	defer runtime.GOMAXPROCS(runtime.GOMAXPROCS(0))
 	for k := 0; k < nFiles; k++ {
 		f := c10GenFile(r, k+ctx.Shard)
+		runtime.GOMAXPROCS(c10Procs[0])
+		if g := ctx.G(k); g%16 == 3 {
+			// well-formed lists of sizes around the powers of two up to the shipped database's size, loaded and searched
+			// under the processor counts of small and large machines (index construction and scoring may be split by size and by processor count)
+			f = c10SizedFile(r, g/16)
+			procs := c10Procs[(g/16)%len(c10Procs)]
+			runtime.GOMAXPROCS(procs)
+			f.Class = "wellformed-sized"
+			ctx.R.Path(fmt.Sprintf("sized-procs-%d", procs), 1)
+			if len(f.Expected) > 2048 {
+				ctx.R.Path("sized-over-2048", 1)
+			}
+			if len(f.Expected) > 4096 {
+				ctx.R.Path("sized-over-4096", 1)
+			}
+		}
+		tFile := time.Now()
 		p := filepath.Join(ctx.Scratch, fmt.Sprintf("f%d.yml", k))
 		os.WriteFile(p, f.Content, 0o644)
 		cs := map[string]interface{}{"class": f.Class, "file_hex": fmt.Sprintf("%x", vlib.Trunc(string(f.Content), 1500)), "file_len": len(f.Content)}
@@ -383,7 +405,11 @@ func engineTotality(ctx *Ctx) {
 		cdb := database.NewCachedDatabase(db)
 		mdb := database.NewMonitoredDatabase(db)
 		sr := recovery.NewSearchRecovery()
-		for qi := 0; qi < nQ; qi++ {
+		nQf := nQ
+		if f.Class == "wellformed-sized" {
+			nQf = 1
+		}
+		for qi := 0; qi < nQf; qi++ {
 			q := c10Query(r, words)
 			o := c10Options(r)
 			qcs := map[string]interface{}{"class": f.Class, "file_hex": cs["file_hex"], "query_hex": fmt.Sprintf("%x", q), "opts": fmt.Sprintf("%+v", o)}
@@ -422,8 +448,64 @@ func engineTotality(ctx *Ctx) {
 				}
 			}
 		}
+		c18AddExtra(ctx, "cpu_seconds_"+f.Class, time.Since(tFile).Seconds())
 		if k < 3 {
 			ctx.R.Sample(map[string]interface{}{"class": f.Class, "file": vlib.Trunc(string(f.Content), 300), "entries": len(db.Commands)})
+		}
+	}
+}
+
+// processor counts a user's machine may have (the first is this machine's)
+var c10Procs = []int{runtime.NumCPU(), 1, 2, 3, 4, 6, 8, 12, 24, 32, 48, 64, 96, 128, 192, 256}
+
+// c10SizedFile: a plain well-formed list whose length is near a power of two (just above it in most cases) or anywhere up to 7000.
+func c10SizedFile(r *rand.Rand, k int) c10File {
+	var n int
+	switch k % 4 {
+	case 0:
+		n = []int{256, 512, 1024, 2048, 4096}[r.Intn(5)] + 1 + r.Intn(40)
+	case 1:
+		n = []int{512, 1024, 2048, 4096}[r.Intn(4)] + r.Intn(500)
+	case 2:
+		n = 300 + r.Intn(1200)
+	default:
+		n = 500 + r.Intn(6500)
+	}
+	sp := vlib.DBSpec{N: n, TieHeavy: r.Intn(2) == 0, Platforms: r.Intn(3), Pipelines: true}
+	e := vlib.StripCaches(vlib.GenCommands(r, sp))
+	return c10File{Content: c10Emit(e, false), Expected: e}
+}
+
+// c10DictQueries: every string constant of the tree under test (see vlib.SourceDict), in systematic variants, as a query
+// with the query analysis on and off. The list is walked exhaustively, divided over the shards.
+func c10DictQueries(ctx *Ctx, r *rand.Rand, budget time.Duration) {
+	d := ctx.Dict()
+	db := vlib.MustLoad(vlib.GenCommands(r, vlib.DBSpec{N: 25, TieHeavy: true, Platforms: 1, Pipelines: true}))
+	cdb := database.NewCachedDatabase(db)
+	lits := append(append([]string{}, d.Phrases...), d.Words...)
+	ctx.R.Extra["dictionary_literals"] = float64(len(lits))
+	extra := ctx.Pick(2, 12)
+	for i, lit := range lits {
+		if i%ctx.NShards != ctx.Shard {
+			continue
+		}
+		for _, q := range d.Variants(r, lit, extra) {
+			for _, nlpOn := range []bool{true, false} {
+				o := database.SearchOptions{Limit: 5, UseNLP: nlpOn, UseFuzzy: r.Intn(2) == 0, AllPlatforms: true}
+				qcs := map[string]interface{}{"class": "dictionary-query", "literal": lit, "query": q, "query_hex": fmt.Sprintf("%x", q), "opts": fmt.Sprintf("%+v", o)}
+				ctx.R.Begin(qcs)
+				ctx.R.Eval(1)
+				ctx.R.Path("dictionary-queries", 1)
+				if !c10Watch(budget, func() {
+					ctx.R.Guard("C10", "SearchUniversal", qcs, func() { db.SearchUniversal(q, o) })
+					ctx.R.Guard("C10", "SearchWithNLP", qcs, func() { db.SearchWithNLP(q, o) })
+					ctx.R.Guard("C10", "SearchWithOptionsAndCache", qcs, func() { cdb.SearchWithOptionsAndCache(q, o) })
+					ctx.R.Guard("C10", "GetSuggestions", qcs, func() { db.GetSuggestions(q, 3) })
+				}) {
+					ctx.R.Inconcl("watchdog: dictionary query")
+				}
+			}
+			ctx.R.Nontriv("dict", q)
 		}
 	}
 }
